@@ -1,10 +1,195 @@
 /- driver ops for property C13 (model side of the correspondence) -/
 import Rsa.Core.Wire
+import Rsa.Core.Compare
+import Rsa.Core.Nan
+import Rsa.Drv.C03
 
-open Lean Rsa.Wire
+open Lean Rsa.Wire Rsa.Compare Rsa.Nan
 
 namespace Rsa.Drv.C13
 
-def handle : Handler := fun _op _j => none
+def errName : ParseErr → String
+  | .shape => "shape"
+  | .nanpos => "nanpos"
+  | .empty => "empty"
+
+def stackF (j : Json) : R (List (List (Option Float))) := asList (asList (asOpt asFloat)) j
+def stackQ (j : Json) : R (List (List (Option Rat))) := asList (asList (asOpt asRat)) j
+
+def ofOptF : Option Float → Json := ofOpt ofFloat
+def ofMask (m : List Bool) : Json := ofList Json.bool m
+
+/-- a measure on reduced vectors; `none` = the reduced length is no RDM length (Bures) -/
+def measureF (method : String) (x y : List Float) : R Json :=
+  match method with
+  | "cosine" => pure (ofFloat (cosine x y))
+  | "corr" => pure (ofFloat (corr x y))
+  | "spearman" => pure (ofFloat (spearman x y))
+  | "kendall" | "tau-b" => pure (ofOpt ofFloat (tauB x y))
+  | "tau-a" => pure (ofFloat (tauA x y))
+  | "rho-a" => pure (ofFloat (rhoA x y))
+  | m => throw s!"unknown method {m}"
+
+def resultJson (r : Except ParseErr (List (List (R Json)))) : R Json :=
+  match r with
+  | .error e => pure (obj [("exc", Json.str (errName e))])
+  | .ok rows => do
+    let rows ← rows.mapM (fun r => r.mapM id)
+    pure (obj [("res", ofList (ofList id) rows)])
+
+/-- `compare(x, y, method, sigma_k)` on stacks with missing entries -/
+def compareOp (j : Json) : R Json := do
+  let method ← fld j "method" >>= asStr
+  let n ← fld j "n" >>= asNat
+  let xs ← fld j "x" >>= stackF
+  let ys ← fld j "y" >>= stackF
+  let sg ← C03.asSigma asFloat (fldD j "sigma" Json.null)
+  let whitenedOf := fun (centre : Bool) (V : List (List Float)) (a b : List Float) =>
+    (pure (ofOpt ofFloat (if centre then whitenedCorr V a b else whitenedCos V a b)) : R Json)
+  match method with
+  | "cosine_cov" | "corr_cov" =>
+    let centre := method == "corr_cov"
+    let slow ← resultJson (compareNanV (whitenedOf centre) (getV n sg) xs ys)
+    match sg with
+    | .none =>
+      let fast ← resultJson (compareNanM (fun m a b =>
+        (pure (ofFloat (if centre then whitenedFastNan n m (center a) (center b)
+                        else whitenedFastNan n m a b)) : R Json)) xs ys)
+      pure (obj [("coded", fast), ("slow", slow)])
+    | _ => pure (obj [("coded", slow), ("slow", slow)])
+  | "bures" | "bures_metric" =>
+    let r ← resultJson (compareNan (fun a b =>
+      let n' := (List.range (n + 1)).find? (fun k => triLen k == a.length ∧ 2 ≤ k)
+      match n' with
+      | none => (pure (Json.str "ValueError") : R Json)
+      | some k =>
+        if method == "bures" then pure (ofFloat (buresSim C03.eighF (kernelRows k a) (kernelRows k b)))
+        else pure (ofFloat (sqBuresMetric C03.eighF (kernelRows k a) (kernelRows k b)))) xs ys)
+    pure (obj [("coded", r)])
+  | _ =>
+    let r ← resultJson (compareNan (measureF method) xs ys)
+    pure (obj [("coded", r)])
+
+/-- the parser alone (exact): reduced stacks, mask, and what the legacy parser did -/
+def parseOp (j : Json) : R Json := do
+  let xs ← fld j "x" >>= stackQ
+  let ys ← fld j "y" >>= stackQ
+  let show1 := fun (r : Except ParseErr (List (List Rat) × List (List Rat) × List Bool)) =>
+    match r with
+    | .error e => obj [("exc", Json.str (errName e))]
+    | .ok (a, b, m) => obj [("x", ofList (ofList ofRat) a), ("y", ofList (ofList ofRat) b), ("mask", ofMask m)]
+  pure (obj [("coded", show1 (parseCoded xs ys)), ("legacy", show1 (parseLegacy xs ys))])
+
+/-- `_mean(vectors, weights)` exactly: as coded and as specified -/
+def meanOp (j : Json) : R Json := do
+  let vs ← fld j "v" >>= stackQ
+  let wj := fldD j "w" Json.null
+  let kind ← asStr (fldD j "wkind" (Json.str "none"))
+  let ws : List (List (Option Rat)) ← match kind with
+    | "none" => pure (onesLike vs)
+    | "rdm" => do let w ← asList asRat wj; pure (perRdmWeights vs w)
+    | _ => stackQ wj
+  let coded := nanMean vs ws
+  let spec := match vs with
+    | [] => []
+    | v0 :: _ => (List.range v0.length).map (fun k => nanMeanEntrySpec (colAt k (List.zipWith List.zip vs ws)))
+  pure (obj [("coded", ofList (ofOpt ofRat) coded), ("spec", ofList (ofOpt ofRat) spec)])
+
+def rescaleMethod (s : String) : R RescaleMethod :=
+  match s with
+  | "evidence" => pure .evidence
+  | "setsize" => pure .setsize
+  | "simple" => pure .simple
+  | m => throw s!"unknown rescale method {m}"
+
+/-- `_rescale(dissim, method, threshold)` in doubles -/
+def rescaleOp (j : Json) : R Json := do
+  let m ← fld j "method" >>= asStr >>= rescaleMethod
+  let thr ← fld j "thr" >>= asFloat
+  let fuel ← asNat (fldD j "fuel" (ofNat 2000))
+  let d ← fld j "d" >>= stackF
+  let (al, w, k, ok) := rescale m thr fuel d
+  pure (obj [("aligned", ofList (ofList ofOptF) al), ("weights", ofList (ofList ofOptF) w),
+             ("passes", ofNat k), ("converged", Json.bool ok)])
+
+/-- one pass of the loop from a given estimate (fixed-point check) -/
+def rescaleStepOp (j : Json) : R Json := do
+  let m ← fld j "method" >>= asStr >>= rescaleMethod
+  let d ← fld j "d" >>= stackF
+  let est ← fld j "est" >>= asList (asOpt asFloat)
+  let (al, nxt) := rescaleStep (rescaleWeights m d) d est
+  pure (obj [("aligned", ofList (ofList ofOptF) al), ("est", ofList ofOptF nxt)])
+
+def poolMethod (s : String) : R PoolMethod :=
+  match s with
+  | "euclid" => pure .euclid
+  | "cosine" => pure .cosine
+  | "corr" => pure .corr
+  | "rank" => pure .rank
+  | "cosine_cov" => pure .cosineCov
+  | "corr_cov" => pure .corrCov
+  | m => throw s!"unknown pool method {m}"
+
+/-- `pool_rdm` on a stack with missing entries; also the NaN-free formula on the reduced
+    rows put back at the mask of the first RDM (they must agree when the mask is common) -/
+def poolOp (j : Json) : R Json := do
+  let pm ← fld j "pm" >>= asStr >>= poolMethod
+  let n ← fld j "n" >>= asNat
+  let c ← fld j "c" >>= asFloat
+  let st ← fld j "stack" >>= stackF
+  let sg ← C03.asSigma asFloat (fldD j "sigma" Json.null)
+  let V := if pm = .cosineCov ∨ pm = .corrCov then getV n sg else []
+  let coded := pool pm V c st
+  let m0 := maskOf (st.headD [])
+  let deleted := scatter m0 (poolRows pm (subBlock m0 V) c (st.map delete))
+  pure (obj [("coded", ofList ofOptF coded), ("deleted", ofList ofOptF deleted)])
+
+def fitMethod (s : String) : R FitMethod :=
+  match s with
+  | "cosine" => pure .cosine
+  | "corr" => pure .corr
+  | "cosine_cov" => pure .cosineCov
+  | "corr_cov" => pure .corrCov
+  | m => throw s!"unknown fit method {m}"
+
+/-- `fit_regress(model, data, method, sigma_k, ridge_weight, normalize)`:
+    `A` = model RDM vectors (after pattern subsampling), `data` = data stack -/
+def regressOp (j : Json) : R Json := do
+  let ms ← fld j "method" >>= asStr
+  let fm ← fitMethod ms
+  let pm ← poolMethod ms
+  let n ← fld j "n" >>= asNat
+  let ridge ← fld j "ridge" >>= asFloat
+  let normalize ← asBool (fldD j "normalize" (Json.bool true))
+  let A ← fld j "A" >>= stackF
+  let data ← fld j "data" >>= stackF
+  let sg ← C03.asSigma asFloat (fldD j "sigma" Json.null)
+  let c ← fld j "c" >>= asFloat
+  let cov := fm = .cosineCov ∨ fm = .corrCov
+  -- `pool_rdm(data, method=method)`: no sigma_k is forwarded
+  let y := pool pm (if cov then getV n (SigmaK.none : SigmaK Float) else []) c data
+  let V := if cov then getV n sg else []
+  match fitRegress fm V ridge normalize A y with
+  | .error e => pure (obj [("exc", Json.str (errName e))])
+  | .ok t => pure (obj [("theta", ofList ofFloat t), ("pooled", ofList ofOptF y)])
+
+/-- `subsample_pattern` on a condensed vector (exact) -/
+def subsampleOp (j : Json) : R Json := do
+  let n ← fld j "n" >>= asNat
+  let sel ← fld j "sel" >>= asList asNat
+  let v ← fld j "v" >>= asList (asOpt asRat)
+  pure (obj [("v", ofList (ofOpt ofRat) (subsampleVec n sel v)), ("mask", ofMask (subsampleMask sel))])
+
+def handle : Handler := fun op j =>
+  match op with
+  | "c13.compare" => some (compareOp j)
+  | "c13.parse" => some (parseOp j)
+  | "c13.mean" => some (meanOp j)
+  | "c13.rescale" => some (rescaleOp j)
+  | "c13.rescale_step" => some (rescaleStepOp j)
+  | "c13.pool" => some (poolOp j)
+  | "c13.regress" => some (regressOp j)
+  | "c13.subsample" => some (subsampleOp j)
+  | _ => none
 
 end Rsa.Drv.C13
